@@ -22,8 +22,9 @@ Drift(e) == LET m == Model(e) IN
 
 Init == l = 1 /\ viol = {} /\ drift = 0 /\ nscen = 0
 Reset == E.ev = "Reset" /\ viol' = {} /\ drift' = 0 /\ nscen' = nscen + 1
+\* an action issued while the live status socket of the DAG did not answer promptly (overloaded machine) is not judged
 Op == /\ E.ev = "Op"
-      /\ LET c == OpClauses(E)  d == Drift(E) IN
+      /\ LET c == IF E.slowProbe THEN {} ELSE OpClauses(E)  d == IF E.slowProbe THEN {} ELSE Drift(E) IN
          /\ viol' = viol \cup c
          /\ drift' = drift + (IF d = {} THEN 0 ELSE 1)
          /\ (c # {}) => PrintT("DETAIL " \o ToJson([scen |-> E.scen, i |-> E.i, viol |-> c, a |-> E.a, resp |-> E.resp, code |-> E.code,
